@@ -209,8 +209,11 @@ def conform_family(cfgs, behs_pos, behs_neg, make_real, on_violation, counters, 
                         on_violation('optimum', cfg, real, None, 'implementation infeasible but specification has behaviours')
                 elif st == 'optimal':
                     if best is None:
-                        counters['opt_bad'] += 1
-                        on_violation('optimum', cfg, real, None, 'implementation feasible (value %.9g) but specification has no behaviour' % val)
+                        if all(a.get('q', 1) == 1 for a in cfg['assets']):
+                            counters['opt_bad'] += 1
+                            on_violation('optimum', cfg, real, None, 'implementation feasible (value %.9g) but specification has no behaviour' % val)
+                        else:
+                            counters['opt_bounded_only'] += 1      # a coarse candidate lattice may simply miss every feasible point
                     else:
                         lat = best / cf.scale
                         if val < lat - 1e-6 * max(1, abs(lat)):
